@@ -328,8 +328,9 @@ func recoverTable(s *session, o *opt.Options) error {
 			}
 		}()
 
-		// Copy entries.
-		tw := table.NewWriter(writer, o, nil, 0)
+		// Copy entries. The table is written like any other table of the
+		// session (internal key comparer and filter), not with the raw options.
+		tw := table.NewWriter(writer, s.o.Options, nil, 0)
 		for iter.Next() {
 			key := iter.Key()
 			if validInternalKey(key) {
